@@ -415,7 +415,7 @@ fn main() {
     }
     let n_vectors = vectors.len();
     let threads = a.pick(4usize, 14usize);
-    let n_random = a.pick(60_000u64, 3_000_000u64);
+    let n_random = a.pick(60_000u64, 1_000_000u64);
     let next = AtomicU64::new(0);
     let chunk = 512u64;
     std::thread::scope(|s| {
